@@ -3,7 +3,20 @@ From Errv Require Import Base.Str Redact.Markers Redact.Buffer Model.Err Model.S
      Model.Codec Proofs.StrFacts Proofs.FastIs Proofs.CodecFacts Proofs.RoundTrip Proofs.EraseDef.
 From Coq Require Import Lia.
 
-Definition proc_closed (p : proc) : Prop := knows p k_barrierPrev = true -> knows p k_barrier = true.
+(* What a process must know together for its decode-encode-decode to settle:
+   - the previous barrier type decodes to the current one, which re-encodes under the current key;
+   - syscall.Errno and *errbase.OpaqueErrno decode to each other, depending on the platform
+     recorded in the payload: a process that knows one of the two keys but not the other
+     still loses the value on the second hop (witnesses [errno_closure_needed_1/2] below). *)
+Definition proc_closed (p : proc) : Prop :=
+  (knows p k_barrierPrev = true -> knows p k_barrier = true) /\
+  knows p k_errno = knows p k_opaqueErrno.
+
+Lemma proc_closed_all_knowing : proc_closed all_knowing.
+Proof. split; [intro; reflexivity|reflexivity]. Qed.
+
+Lemma proc_closed_unknowing : proc_closed unknowing.
+Proof. split; [intro H; discriminate H|reflexivity]. Qed.
 
 (* ---- induction over wire messages that also descends into nested payloads ---- *)
 Definition pl_P (P : enc -> Prop) (pl : option payload) : Prop :=
@@ -37,11 +50,12 @@ Definition enc_ind2 (P : enc -> Prop)
       end
     end.
 
-(* ---- the one obstruction: an errno payload of a foreign platform ----
+(* ---- formerly the one obstruction: an errno payload of a foreign platform ----
    decoded by a process that knows syscall.Errno it becomes an *errbase.OpaqueErrno,
-   which re-encodes under its own type key, for which no decoder exists: the
-   next decode yields an opaque leaf.  [errno_ok p x]: no node of x that p would
-   decode with the errno decoder carries a foreign-platform payload. *)
+   which re-encodes under its own type key.  That key had no decoder; it has one now
+   (k_opaqueErrno), so the side condition below is no longer needed: see [hop_idem'].
+   It is kept because the older statements mention it.  [errno_ok p x]: no node of x
+   that p would decode with the syscall.Errno decoder carries a foreign-platform payload. *)
 Fixpoint errno_ok (p : proc) (x : enc) : bool :=
   match x with
   | ELeaf _ (mkdet _ fam _ _ pl) cs =>
@@ -211,6 +225,14 @@ Proof. r_leaf (Leaf i (LUnimpl m u d)) k_unimpl K. Qed.
 
 Lemma st_errno i z : knows p k_errno = true -> stable p (Leaf i (LErrno z)).
 Proof. r_leaf (Leaf i (LErrno z)) k_errno K. Qed.
+
+(* an errno of another platform comes back as the same *errbase.OpaqueErrno *)
+Lemma st_opaqueErrno i m pe :
+  knows p k_opaqueErrno = true -> str_eqb (en_arch pe) this_arch = false ->
+  stable p (Leaf i (LOpaqueErrno m pe)).
+Proof.
+  intros K Ha n. enc_step. fam_is (Leaf i (LOpaqueErrno m pe)) k_opaqueErrno. rewrite K, Ha. reflexivity.
+Qed.
 
 (* the OK code 0 is not an error: the decoder falls back to the opaque leaf *)
 Lemma st_grpcStatus i c m : c <> 0 -> knows p k_grpcStatus = true -> stable p (Leaf i (LGrpcStatus c m)).
@@ -454,15 +476,13 @@ Section Main.
 Variable p : proc.
 Hypothesis Hp : proc_closed p.
 
-Definition HI (x : enc) : Prop := errno_ok p x = true -> forall n, stable p (fst (decode p x n)).
+Definition HI (x : enc) : Prop := forall n, stable p (fst (decode p x n)).
 
 Lemma decode_list_all cs :
-  Forall HI cs -> forallb (errno_ok p) cs = true ->
-  forall n, Forall (stable p) (fst (decode_list (decode p) cs n)).
+  Forall HI cs -> forall n, Forall (stable p) (fst (decode_list (decode p) cs n)).
 Proof.
-  induction 1 as [|c l Hc Hl IH]; intros Hok n; cbn [decode_list]; [constructor|].
-  cbn [forallb] in Hok. apply andb_true_iff in Hok as [Hok1 Hok2].
-  specialize (Hc Hok1 n). specialize (IH Hok2).
+  induction 1 as [|c l Hc Hl IH]; intros n; cbn [decode_list]; [constructor|].
+  specialize (Hc n).
   destruct (decode p c n) as [e n1]. specialize (IH n1).
   destruct (decode_list (decode p) l n1) as [es n2]. cbn [fst] in *. now constructor.
 Qed.
@@ -485,9 +505,8 @@ Ltac is_key E fam := apply str_eqb_eq in E; subst fam.
 
 Lemma hop_leaf msg o fam ext rep pl cs : Forall HI cs -> pl_P HI pl -> HI (ELeaf msg (mkdet o fam ext rep pl) cs).
 Proof.
-  intros IHcs IHpl Hok n.
-  cbn [errno_ok] in Hok. apply andb_true_iff in Hok as [Hpl Hcs].
-  pose proof (decode_list_all cs IHcs Hcs) as Hes. clear IHcs Hcs.
+  intros IHcs IHpl n. destruct Hp as [Hpb Hpe].
+  pose proof (decode_list_all cs IHcs) as Hes. clear IHcs.
   cbn [decode].
   destruct (mem_str fam leaf_decoder_keys && knows p fam) eqn:HL.
   - apply andb_true_iff in HL as [HLm HK].
@@ -500,20 +519,27 @@ Proof.
       cbn [fresh fst]. now apply st_leafError. }
     destruct (str_eqb fam k_barrier) eqn:E4.
     { is_key E4 fam. destruct pl as [pl0|]; [destruct pl0|]; try (fin_oleaf Hes cs n).
-      cbn [pl_P] in IHpl. rewrite HK in Hpl. change (errno_ok p e = true) in Hpl.
-      specialize (IHpl Hpl n). destruct (decode p e n) as [em n1]. cbn [fresh fst] in IHpl |- *.
+      cbn [pl_P] in IHpl.
+      specialize (IHpl n). destruct (decode p e n) as [em n1]. cbn [fresh fst] in IHpl |- *.
       now apply st_barrier. }
     destruct (str_eqb fam k_barrierPrev) eqn:E5.
     { is_key E5 fam. destruct pl as [pl0|]; [destruct pl0|]; try (fin_oleaf Hes cs n).
-      cbn [pl_P] in IHpl. rewrite HK in Hpl. change (errno_ok p e = true) in Hpl.
-      specialize (IHpl Hpl n). destruct (decode p e n) as [em n1]. cbn [fresh fst] in IHpl |- *.
-      apply st_barrier; [now apply Hp | exact IHpl]. }
+      cbn [pl_P] in IHpl.
+      specialize (IHpl n). destruct (decode p e n) as [em n1]. cbn [fresh fst] in IHpl |- *.
+      apply st_barrier; [now apply Hpb | exact IHpl]. }
     destruct (str_eqb fam k_unimpl) eqn:E6.
     { is_key E6 fam. cbn [fresh fst]. now apply st_unimpl. }
     destruct (str_eqb fam k_errno) eqn:E7.
-    { is_key E7 fam. destruct pl as [pl0|]; [destruct pl0|]; try (fin_oleaf Hes cs n).
-      rewrite HK in Hpl. change (str_eqb (en_arch p0) this_arch = true) in Hpl. rewrite Hpl.
-      cbn [fresh fst]. now apply st_errno. }
+    { is_key E7 fam. cbn [orb]. destruct pl as [pl0|]; [destruct pl0|]; try (fin_oleaf Hes cs n).
+      destruct (str_eqb (en_arch p0) this_arch) eqn:Ea; cbn [fresh fst].
+      - now apply st_errno.
+      - apply st_opaqueErrno; [now rewrite <- Hpe | exact Ea]. }
+    destruct (str_eqb fam k_opaqueErrno) eqn:E7'.
+    { is_key E7' fam. cbn [orb]. destruct pl as [pl0|]; [destruct pl0|]; try (fin_oleaf Hes cs n).
+      destruct (str_eqb (en_arch p0) this_arch) eqn:Ea; cbn [fresh fst].
+      - apply st_errno. now rewrite Hpe.
+      - now apply st_opaqueErrno. }
+    cbn [orb].
     destruct (str_eqb fam k_grpcStatus) eqn:E8.
     { is_key E8 fam. destruct pl as [pl0|]; [destruct pl0|]; try (fin_oleaf Hes cs n).
       destruct (c =? 0) eqn:Ec; [fin_oleaf Hes cs n|]. apply N.eqb_neq in Ec.
@@ -546,8 +572,8 @@ Ltac pl_cases pl IHc := destruct pl as [pl0|]; [destruct pl0|]; try (fin_owrap I
 
 Lemma hop_wrap c msg o fam ext rep pl mt : HI c -> pl_P HI pl -> HI (EWrap c msg (mkdet o fam ext rep pl) mt).
 Proof.
-  intros IHc IHpl Hok n. cbn [errno_ok] in Hok. apply andb_true_iff in Hok as [Hc Hpl].
-  specialize (IHc Hc n). clear Hc. cbn [decode].
+  intros IHc IHpl n.
+  specialize (IHc n). cbn [decode].
   destruct (decode p c n) as [ec n0]. cbn [fst] in IHc. cbn [fresh].
   destruct (mem_str fam wrap_decoder_keys && knows p fam) eqn:HL.
   - apply andb_true_iff in HL as [HLm HK].
@@ -580,8 +606,8 @@ Proof.
     { is_key E11 fam. cbn [fst]. now apply st_withSafeDetails. }
     destruct (str_eqb fam k_withSecondary) eqn:E12.
     { is_key E12 fam. pl_cases pl IHc.
-      cbn [pl_P] in IHpl. rewrite HK in Hpl. change (errno_ok p e = true) in Hpl.
-      specialize (IHpl Hpl (Pos.succ n0)). destruct (decode p e (Pos.succ n0)) as [es n2].
+      cbn [pl_P] in IHpl.
+      specialize (IHpl (Pos.succ n0)). destruct (decode p e (Pos.succ n0)) as [es n2].
       cbn [fst] in IHpl |- *. now apply st_secondary. }
     destruct (str_eqb fam k_withHTTP) eqn:E13.
     { is_key E13 fam. pl_cases pl IHc. cbn [fst]. now apply st_withHTTP. }
@@ -605,27 +631,55 @@ Theorem hop_stable_node x : HI x.
 Proof. induction x using enc_ind2; [now apply hop_leaf | now apply hop_wrap]. Qed.
 End Main.
 
-(* For every wire message x (including ones no honest encoder would produce) that
-   carries no foreign-platform errno where p would decode it: what p decodes from
-   its own re-encoding of the decoded error is the same error, up to object
-   identities and the cached redacted tags of context layers. *)
+(* For every wire message x (including ones no honest encoder would produce):
+   what p decodes from its own re-encoding of the decoded error is the same error,
+   up to object identities and the cached redacted tags of context layers.
+   No condition on x any more: a foreign-platform errno comes back as the same
+   *errbase.OpaqueErrno. *)
+Theorem hop_idem' p (Hp : proc_closed p) x n n' :
+  erase (fst (decode p (encode (fst (decode p x n))) n')) = erase (fst (decode p x n)).
+Proof. exact (hop_stable_node p Hp x n n'). Qed.
+
+(* the older statement, with its now superfluous side condition *)
 Theorem hop_idem p (Hp : proc_closed p) x (Hx : errno_ok p x = true) n n' :
   erase (fst (decode p (encode (fst (decode p x n))) n')) = erase (fst (decode p x n)).
-Proof. exact (hop_stable_node p Hp x Hx n n'). Qed.
+Proof. now apply hop_idem'. Qed.
 
-(* The hypothesis on x cannot be dropped: a foreign-platform errno payload
-   decoded by a process that knows syscall.Errno becomes an *errbase.OpaqueErrno,
-   whose re-encoding has no decoder anywhere. *)
+(* The message that used to need the side condition: a foreign-platform errno payload,
+   decoded by a process that knows syscall.Errno, becomes an *errbase.OpaqueErrno;
+   its re-encoding now has a decoder, and the value is stable from the first hop. *)
 Definition foreign_errno_msg : enc :=
   ELeaf (lit "boom")
         (mkdet [] k_errno [] []
                (Some (PlErrno (mkerrno 1%Z (lit "plan9:arm") false false false false false)))) [].
 
-Lemma hop_idem_needs_errno_ok :
-  proc_closed all_knowing /\
+Example foreign_errno_stable :
+  errno_ok all_knowing foreign_errno_msg = false /\
   erase (fst (decode all_knowing (encode (fst (decode all_knowing foreign_errno_msg 100%positive))) 200%positive))
-  <> erase (fst (decode all_knowing foreign_errno_msg 100%positive)).
+  = erase (fst (decode all_knowing foreign_errno_msg 100%positive)).
+Proof. vm_compute. split; reflexivity. Qed.
+
+(* The closure of [proc_closed] under errno knowledge is needed, in both directions. *)
+Definition only_errno : proc := mkproc [k_opaqueErrno].
+Definition only_opaqueErrno : proc := mkproc [k_errno].
+Definition native_opaque_errno_msg : enc :=
+  ELeaf (lit "boom")
+        (mkdet [] k_opaqueErrno [] []
+               (Some (PlErrno (mkerrno 1%Z this_arch false false false false false)))) [].
+
+Example errno_closure_needed_1 :
+  (knows only_errno k_barrierPrev = true -> knows only_errno k_barrier = true) /\
+  erase (fst (decode only_errno (encode (fst (decode only_errno foreign_errno_msg 100%positive))) 200%positive))
+  <> erase (fst (decode only_errno foreign_errno_msg 100%positive)).
 Proof. split; [intro; reflexivity|]. vm_compute. discriminate. Qed.
+
+Example errno_closure_needed_2 :
+  (knows only_opaqueErrno k_barrierPrev = true -> knows only_opaqueErrno k_barrier = true) /\
+  errno_ok only_opaqueErrno native_opaque_errno_msg = true /\
+  erase (fst (decode only_opaqueErrno
+                (encode (fst (decode only_opaqueErrno native_opaque_errno_msg 100%positive))) 200%positive))
+  <> erase (fst (decode only_opaqueErrno native_opaque_errno_msg 100%positive)).
+Proof. split; [intro; reflexivity|]. vm_compute. split; [reflexivity|discriminate]. Qed.
 
 (* ---- whatever p decodes re-encodes to a message satisfying [errno_ok p] ---- *)
 Section Reencode.
@@ -739,7 +793,9 @@ Proof.
     destruct (str_eqb fam k_barrier) eqn:E4. { is_key E4 fam. eo_leaf_fin Hes cs n pl IHpl. }
     destruct (str_eqb fam k_barrierPrev) eqn:E5. { is_key E5 fam. eo_leaf_fin Hes cs n pl IHpl. }
     destruct (str_eqb fam k_unimpl) eqn:E6. { is_key E6 fam. eo_leaf_fin Hes cs n pl IHpl. }
-    destruct (str_eqb fam k_errno) eqn:E7. { is_key E7 fam. eo_leaf_fin Hes cs n pl IHpl. }
+    destruct (str_eqb fam k_errno) eqn:E7. { is_key E7 fam. cbn [orb]. eo_leaf_fin Hes cs n pl IHpl. }
+    destruct (str_eqb fam k_opaqueErrno) eqn:E7'. { is_key E7' fam. cbn [orb]. eo_leaf_fin Hes cs n pl IHpl. }
+    cbn [orb].
     destruct (str_eqb fam k_grpcStatus) eqn:E8. { is_key E8 fam. eo_leaf_fin Hes cs n pl IHpl. }
     destruct (str_eqb fam k_gogoStatus) eqn:E9. { is_key E9 fam. eo_leaf_fin Hes cs n pl IHpl. }
     eo_leaf_fin Hes cs n pl IHpl.
@@ -806,14 +862,17 @@ Proof. revert n. change (EO x). induction x using enc_ind2; [now apply eo_leaf_n
 End Reencode.
 
 (* k >= 1 hops through the same process: the decoded error no longer changes.
-   No condition on e: the first hop leaves nothing that the errno decoder of p
-   would still turn into an *errbase.OpaqueErrno. *)
+   No condition on e, and already from the first hop. *)
+Corollary hop_stable_first' p (Hp : proc_closed p) e n n' :
+  erase (fst (hop p (fst (hop p e n)) n')) = erase (fst (hop p e n)).
+Proof. unfold hop. now apply hop_idem'. Qed.
+
 Corollary hop_stable p (Hp : proc_closed p) e n n' n'' :
   erase (fst (hop p (fst (hop p (fst (hop p e n)) n')) n'')) = erase (fst (hop p (fst (hop p e n)) n')).
-Proof. unfold hop. apply hop_idem; [exact Hp|]. apply reencode_errno_ok. Qed.
+Proof. now apply hop_stable_first'. Qed.
 
-(* the first hop itself, when the encoded error carries no foreign errno for p *)
+(* the older statement of the first hop, with its now superfluous side condition *)
 Corollary hop_stable_first p (Hp : proc_closed p) e n n' :
   errno_ok p (encode e) = true ->
   erase (fst (hop p (fst (hop p e n)) n')) = erase (fst (hop p e n)).
-Proof. intro H. unfold hop. now apply hop_idem. Qed.
+Proof. intros _. now apply hop_stable_first'. Qed.
